@@ -46,6 +46,12 @@ CLAIMS["C10"] = dict(
     technique=KANI + "; differential harness AVX kernel vs reference kernel",
     ref="DESIGN.md §5 C10",
 )
+CLAIMS["C12"] = dict(
+    text="Scratch arena arithmetic decided for symbolic take lengths at enumerated window alignments (aligned, in-window, disjoint, exact remaining capacity; oversize requests are refused by a panic, never served outside the window; split_mut under its own precondition), and HAL (operation, *_tmp_bytes) pairs on FFT64Ref/NTT120Ref marker modules run with a scratch of EXACTLY the declared size and fully symbolic contents: no panic, no access outside the window (Kani's checks), result equal to the reference-level function (hence independent of the scratch contents).",
+    note="HAL coefficient-domain pairs only (normalize, lsh/rsh and their in-place/fused forms, rotate/automorphism/mul_xp_minus_one in place), n in {1,2,4}. poulpy-core/ckks/bin-fhe pairs, DFT-domain pairs, multi-thread variants and monotonicity are outside this revision's claim. Known finding: split_mut with a per-part length that is not a multiple of 64.",
+    technique=KANI + "; exact-size scratch window with symbolic contents, reference-level function as oracle",
+    ref="DESIGN.md §5 C12",
+)
 NA = {}
 DEFAULT_NA = "not yet implemented in this revision (work in progress)"
 
